@@ -14,7 +14,7 @@
 //! with every f64 printed exactly as `<mantissa>:<exp2>` (value = m * 2^e),
 //! `inf`, `-inf` or `nan`.
 //!
-//! Mode `run`: `<sample_count> <sample_size|t> <threads> <opt/pre/inp/post counter kinds> <alloc behaviour> <seed>`: a real `Bencher`
+//! Mode `run`: `<sample_count> <sample_size|t> <threads> <opt/pre/inp/post counter kinds> <alloc behaviour> <seed> [<shape>]`: a real `Bencher`
 //! run (OS timer; this binary installs `AllocProfiler` as the global allocator so that
 //! allocation info is recorded per sample), then `compute_stats` on what the run left
 //! behind.  Prints `IN <the recorded samples as a stats case> EXP <counts of the inputs each
@@ -162,6 +162,34 @@ fn rows_of(mode: char, n: usize) -> [u64; 8] {
     }
 }
 
+/// Zero-sized input (shapes `z*`): what the input counters report for it comes from the ordinal of the
+/// counter call, not from the value.
+struct Tok;
+/// Zero-sized output with drop glue.
+struct DropTok;
+impl Drop for DropTok {
+    fn drop(&mut self) {
+        std::hint::black_box(());
+    }
+}
+static ZORD: [std::sync::atomic::AtomicU64; 4] = [
+    std::sync::atomic::AtomicU64::new(0),
+    std::sync::atomic::AtomicU64::new(0),
+    std::sync::atomic::AtomicU64::new(0),
+    std::sync::atomic::AtomicU64::new(0),
+];
+static ZSEED: std::sync::atomic::AtomicU64 = std::sync::atomic::AtomicU64::new(0);
+static ZUNIFORM: std::sync::atomic::AtomicBool = std::sync::atomic::AtomicBool::new(false);
+/// Count reported for the next zero-sized input under kind `k`: that of input value
+/// `input_value(seed + ordinal)` (or of `input_value(seed)` for every input when `uniform`).
+fn zcount(k: usize) -> u64 {
+    use std::sync::atomic::Ordering::SeqCst;
+    let o = ZORD[k].fetch_add(1, SeqCst);
+    let seed = ZSEED.load(SeqCst);
+    let v = if ZUNIFORM.load(SeqCst) { input_value(seed) } else { input_value(seed + o) };
+    v as u64 * MULT[k]
+}
+
 const KINDS: [char; 4] = ['b', 'c', 'y', 'i'];
 /// Count of an input value `n` for kind index `k` (what the `input_counter` closures return).
 const MULT: [u64; 4] = [1, 2, 5, 3];
@@ -183,7 +211,11 @@ fn run(line: &str) -> String {
     use divan::counter::{BytesCount, CharsCount, CyclesCount, ItemsCount};
     use std::sync::atomic::{AtomicU64, Ordering};
     let t = hxlib::toks(line);
-    assert!(t.len() == 6, "run: 6 tokens");
+    assert!(t.len() == 6 || t.len() == 7, "run: 6 or 7 tokens");
+    // optional 7th token: the shape of input and output.  `-`: sized input (default);
+    // `zu` / `zn` / `zd` / `zs`: zero-sized input with output `()` / `u64` / zero-sized with drop glue / `String`
+    let shape: &str = if t.len() == 7 { t[6] } else { "-" };
+    let zst = shape.starts_with('z');
     let sample_count: u32 = t[0].parse().unwrap();
     let sample_size: Option<u32> = if t[1] == "t" { None } else { Some(t[1].parse().unwrap()) };
     let threads: usize = t[2].parse().unwrap();
@@ -263,6 +295,14 @@ fn run(line: &str) -> String {
             _ => (n, None),
         }
     };
+    if zst {
+        assert!(cia.is_empty() && "0a1l".contains(mode), "zero-sized input: no value to count or to carry a block");
+        for z in &ZORD {
+            z.store(0, Ordering::SeqCst);
+        }
+        ZSEED.store(seed, Ordering::SeqCst);
+        ZUNIFORM.store(uniform, Ordering::SeqCst);
+    }
     let dump = v::run_bencher(&cfg, &|b: divan::Bencher| {
         let mut b = b;
         for &k in &pre {
@@ -271,6 +311,45 @@ fn run(line: &str) -> String {
                 1 => b.counter(CharsCount::new(konst(2000, k))),
                 2 => b.counter(CyclesCount::new(konst(2000, k))),
                 _ => b.counter(ItemsCount::new(konst(2000, k))),
+            };
+        }
+        if zst {
+            let mut b = b.with_inputs(|| Tok);
+            for &k in &inp {
+                b = match k {
+                    0 => b.input_counter(|_: &Tok| BytesCount::new(zcount(0))),
+                    1 => b.input_counter(|_: &Tok| CharsCount::new(zcount(1))),
+                    2 => b.input_counter(|_: &Tok| CyclesCount::new(zcount(2))),
+                    _ => b.input_counter(|_: &Tok| ItemsCount::new(zcount(3))),
+                };
+            }
+            for &k in &post {
+                b = match k {
+                    0 => b.counter(BytesCount::new(konst(3000, k))),
+                    1 => b.counter(CharsCount::new(konst(3000, k))),
+                    2 => b.counter(CyclesCount::new(konst(3000, k))),
+                    _ => b.counter(ItemsCount::new(konst(3000, k))),
+                };
+            }
+            // the allocator behaviour of a call (block size as for input value 1)
+            let side = move || {
+                let _ = work(In { n: 1, buf: None });
+            };
+            return match shape {
+                "zu" => b.bench_values(move |_: Tok| side()),
+                "zn" => b.bench_values(move |_: Tok| -> u64 {
+                    side();
+                    divan::black_box(7)
+                }),
+                "zd" => b.bench_values(move |_: Tok| -> DropTok {
+                    side();
+                    DropTok
+                }),
+                "zs" => b.bench_values(move |_: Tok| -> String {
+                    side();
+                    String::from(divan::black_box("abc"))
+                }),
+                other => panic!("unknown shape {other}"),
             };
         }
         if !cia.is_empty() {
@@ -383,7 +462,18 @@ fn run(line: &str) -> String {
             .map(|j| {
                 let mut rows = [0u64; 8];
                 for t in 0..s {
-                    let v = if uniform { input_value(seed) } else { input_value(seed + j * s + t) };
+                    let v = if zst {
+                        1
+                    } else if uniform {
+                        input_value(seed)
+                    } else {
+                        input_value(seed + j * s + t)
+                    };
+                    if shape == "zs" {
+                        // the returned `String` ("abc") is allocated in the timed section, freed after it
+                        rows[4] += 1;
+                        rows[5] += 3;
+                    }
                     let r = if mode == 'l' {
                         // one thread: the recorded samples are the last n*s calls of the run
                         let call = total_calls - (n - j) * s + t;
